@@ -11,14 +11,14 @@ Record istate := mkI {
   i_nodes : list ds;
   i_method : func;
   i_hasEnterClass : bool;
-  i_imports : list string;          (* never re-initialised *)
+  i_imports : list string;
   i_override : bool }.
 
 Definition istate0 : istate := mkI empty_ds [] empty_func false [] false.
 
 (* NewJavaIdentifierListener *)
 Definition new_ident_listener (st : istate) : istate :=
-  mkI empty_ds [] empty_func (i_hasEnterClass st) (i_imports st) (i_override st).
+  mkI empty_ds [] empty_func false [] false.
 
 Definition with_annots (f : func) (a : list annot) : func :=
   mkFunc (f_name f) (f_ret f) (f_params f) (f_calls f) (f_override f) a (f_isctor f) (f_retnull f) (f_mods f) (f_pos f).
